@@ -443,6 +443,11 @@ def monotone(vals, increasing, rel=1e-6):
     return bad
 
 
+def big_drops(vals, frac=0.05):
+    span = max(vals) - min(vals)
+    return sum(1 for a, b in zip(vals, vals[1:]) if a - b > frac * span)
+
+
 def range_limits(ctx, label, case, curve, h0):
     """tabulated ranges that cut the window short, with the 'phase really ends' flag both
     ways: the advertised fastest deflagration / slowest detonation"""
@@ -497,8 +502,9 @@ def range_limits(ctx, label, case, curve, h0):
                 if r[0] is not None:
                     head.append((v, float(r[2]), float(r[3])))
         full = head + defl
-        nb = monotone([x[2] for x in full], True, rel=1e-4) + \
-            monotone([x[1] for x in full], True, rel=1e-4)
+        # a drop of more than 5% of the total variation over the window (small dips at very
+        # slow walls are solver noise and stay far below the range levels tried here)
+        nb = big_drops([x[2] for x in full]) + big_drops([x[1] for x in full])
         ctx.count("window_start_monotone_scan", bucket="violations=%d" % nb)
         if nb:
             ctx.count("window_not_monotone", case)
